@@ -342,6 +342,9 @@ def check(col, prog, tier, profile, fixture=None):
     # ---------------- V6 / V7
     _digits(col, crate, base10, wb, wc, wr, sfx)
 
+    # ---------------- V9 (macros, by witness expansion)
+    _out_macros(col, sfx, fixture)
+
     # ---------------- V8
     for b in crate.bodies:
         imp = crate.impl_of(b)
@@ -385,7 +388,7 @@ def check(col, prog, tier, profile, fixture=None):
                     if e.kind == "call" and e.extra.get("name") == "write" and (e.extra.get("trait") or "").endswith("Writable"):
                         tgt = crate.by_key.get((e.fn.get("resolved") or e.fn).get("def"))
                         ti = crate.impl_of(tgt) if tgt is not None else None
-                        if ti is not None and ti["self_ty"].startswith("[") and not I.backedge_states:
+                        if ti is not None and ti["self_ty"].lstrip("&").startswith("[") and not I.backedge_states:
                             deleg = ti["self_ty"]
             if deleg:
                 col.ok("V8" + sfx, b.loc(), key, "delegates to the %s writer" % deleg)
@@ -470,6 +473,7 @@ def _digits_cell_form(crate, b, bufl, wb, wc):
         start = ent.get(il)
         blen = str(b.locals[bufl]["ty"]).split(";")[-1].strip(" ]")
         at_end = isinstance(start, tuple) and start and start[0] == "len" and (any(x == stores[0].place[1] for x in subterms(start)) or (isinstance(start[1], tuple) and start[1] and start[1][0] == "repeat" and str(start[1][2]) == blen))
+        at_end = at_end or (blen.isdigit() and start == mk_int(int(blen)))   # a named constant equal to the buffer's length
         if not at_end:
             ok, why = False, "the index does not start at the end of the digit buffer (%s)" % tstr(start)
         if not (dig[0] == "bin" and dig[1] == "Add" and mk_int(48) in (dig[2], dig[3])):
@@ -518,6 +522,65 @@ def _digits_cell_form(crate, b, bufl, wb, wc):
         a = tails[0].args[1]
         oke = oke and il is not None and a[0] == "ref" and a[1][0] == "range" and a[1][1] == ("local", bufl) and a[1][2][0] == "agg" and a[1][2][1][1].endswith("RangeFrom") and a[1][2][2][0] == ("phi", uid, il)
     return ok and il is not None and vl is not None, why, bool(oke and ntail and okz)
+
+
+_OUT_WITNESS = """
+#![allow(unused)]
+use rlib_io::*;
+pub fn out3(reader: Reader, writer: Writer, a: i32, b: u64, c: i64) { rlib_io::make_output_macro!(reader, writer); out!(a, b, c); }
+pub fn out1(reader: Reader, writer: Writer, a: i32) { rlib_io::make_output_macro!(reader, writer); out!(a); }
+pub fn outln2(reader: Reader, writer: Writer, a: i32, b: u64) { rlib_io::make_output_macro!(reader, writer); outln!(a, b); }
+pub fn outln0(reader: Reader, writer: Writer) { rlib_io::make_output_macro!(reader, writer); outln!(); }
+"""
+
+
+def _out_macros(col, sfx, fixture):
+    """the out!/outln! macros cannot be judged where they are defined: four expansions in a generated witness crate are
+    exported and each must be  write(&a1) (write_char(' ') write(&ai))*  followed, for outln!, by write_char('\\n')"""
+    from .. import witness
+
+    if fixture or sfx:
+        return
+    col.rule("V9", "out!(a, b, ..) expands to W(a) (' ' W(x))* in argument order; outln! adds one '\\n'", floor=4)
+    try:
+        wp = witness.export_crate("c09w", _OUT_WITNESS, deps={"rlib_io": "rlib/io"})
+    except Exception as e:  # the macros do not even expand
+        col.violation("V9", "out-macros|expansion", "rlib/io/src/output_macro.rs", "the witness uses of out!/outln! do not compile: %s" % str(e)[:200])
+        return
+    try:
+        wc_ = wp.crate("c09w")
+        for fn, nargs, nl in (("out3", 3, False), ("out1", 1, False), ("outln2", 2, True), ("outln0", 0, True)):
+            b = wc_.body(fn)
+            I = util.analyse(b)
+            ok = bool(I.final_states) and b is not None
+            got = []
+            for st in I.final_states:
+                got = []
+                for e in st.event_list():
+                    if e.kind != "call":
+                        continue
+                    nm = e.extra.get("name")
+                    if nm == "write" and "Writer" in str(e.callee):
+                        a = e.args[1]
+                        k = a[1][1] if a[0] == "ref" and a[1][0] == "local" else (a[1][1][1] if a[0] == "ref" and a[1][0] == "constval" and a[1][1][0] == "param" else None)
+                        got.append(("W", k))
+                    elif nm == "write_char":
+                        got.append(("C", e.args[1][1] if e.args[1][0] == "int" else None))
+                want = []
+                for i in range(nargs):
+                    if i:
+                        want.append(("C", 32))
+                    want.append(("W", 3 + i))
+                if nl:
+                    want.append(("C", 10))
+                ok = ok and got == want
+            key = "out-macros|%s" % fn
+            if ok:
+                col.ok("V9", "rlib/io/src/output_macro.rs", key, "%s expands to %s" % (fn, got))
+            else:
+                col.violation("V9", key, "rlib/io/src/output_macro.rs", "%s!(%d argument(s)) expands to the call sequence %s; expected the arguments in order, one ' ' between neighbours%s" % ("outln" if nl else "out", nargs, got, " and one trailing newline" if nl else ""))
+    finally:
+        wp.cleanup()
 
 
 def _single_byte_append(b, inl, BUF, END, cap):
@@ -712,6 +775,21 @@ def _digits(col, crate, base10, wb, wc, wr, sfx):
                 tails = [e for e in evs if _is(e, wb)]
                 if zero and not tails:
                     okz = okz or any(_is(e, wc) and e.args[1] == mk_int(48) for e in evs)
+                    continue
+                if not tails and zones.entails(st.facts, "Lt", selfval, mk_int(10), I.tys):
+                    # one-digit fast path (zero included): the single byte b'0' + value
+                    def _nocast(t_):
+                        if isinstance(t_, tuple) and t_ and t_[0] == "cast":
+                            return _nocast(t_[3])
+                        if isinstance(t_, tuple) and t_ and t_[0] == "bin":
+                            return (t_[0], t_[1], _nocast(t_[2]), _nocast(t_[3]))
+                        return t_
+
+                    one = [e for e in evs if _is(e, wc)]
+                    if len(one) == 1 and util.lin_equal(_nocast(one[0].args[1]), ("bin", "Add", selfval, mk_int(48))):
+                        okz = True
+                        continue
+                    oke = False
                     continue
                 if len(tails) != 1:
                     oke = False
